@@ -123,7 +123,6 @@ type gateway struct {
 	conn     net.Conn
 	br       *bufio.Reader
 	caseSeq  int
-	dispUser func() // unused
 }
 
 func newGateway() (*gateway, error) {
@@ -279,7 +278,10 @@ func (g *gateway) send(u *user.DefaultInfo, deny map[AuthzCall]string, lines []s
 			// already saw this case (then the failure is real and reported)
 			g.conn.Close()
 			g.conn = nil
-			if len(g.up.received) > 0 || attempt == 2 {
+			g.up.mu.Lock()
+			seen := len(g.up.received)
+			g.up.mu.Unlock()
+			if seen > 0 || attempt == 2 {
 				obs.Err = fmt.Sprintf("io: %v %v", werr, rerr)
 				break
 			}
@@ -288,7 +290,7 @@ func (g *gateway) send(u *user.DefaultInfo, deny map[AuthzCall]string, lines []s
 		io.Copy(io.Discard, resp.Body)
 		resp.Body.Close()
 		obs.Status = resp.StatusCode
-		if resp.Close || upgrade || resp.StatusCode >= 400 {
+		if resp.Close || upgrade || resp.StatusCode == http.StatusBadRequest {
 			g.conn.Close()
 			g.conn = nil
 		}
